@@ -118,6 +118,20 @@ func minMaxDist(p geom.Point, r *geom.Bounds) float64 {
 	return min
 }
 
+// boxMinMaxDist is the square root of minMaxDist, computed without squaring
+// (see boxDist). It is never smaller than boxDist of the same arguments.
+func boxMinMaxDist(p geom.Point, r *geom.Bounds) float64 {
+	nearX, farX := r.Min.X, r.Max.X
+	if p.X > r.Min.X/2+r.Max.X/2 {
+		nearX, farX = r.Max.X, r.Min.X
+	}
+	nearY, farY := r.Min.Y, r.Max.Y
+	if p.Y > r.Min.Y/2+r.Max.Y/2 {
+		nearY, farY = r.Max.Y, r.Min.Y
+	}
+	return math.Min(math.Hypot(p.X-nearX, p.Y-farY), math.Hypot(p.Y-nearY, p.X-farX))
+}
+
 // NewRect constructs and returns a pointer to a Rect given a corner point and
 // the lengths of each dimension.  The point p should be the most-negative point
 // on the rectangle (in every dimension) and every length should be positive.
